@@ -90,10 +90,11 @@ func main() {
 	x[0] = 9
 	sa[1][0] = 8
 	println(sa[0][0], sa[1][0], x[0])
-	ma := map[string]A{"k": {1, 2, 3, 4}}
-	y := ma["k"]
+	// (arrays as map values / in interfaces abort the Wa compiler: known finding array_eq)
+	ma := map[string]*A{"k": {1, 2, 3, 4}}
+	y := *ma["k"]
 	y[0] = 7
-	println(ma["k"][0], y[0], sum(ma["k"]))
+	println(ma["k"][0], y[0], sum(*ma["k"]))
 
 	// array of arrays assignment of a row
 	var g [3]A
@@ -107,9 +108,9 @@ func main() {
 	pb[2] = 300
 	println(a[2], pa[2], len(pa))
 
-	// copy through interface
-	var e interface{} = a
+	// copy out of a function result
+	ret := func() A { return a }
+	e2 := ret()
 	a[3] = 400
-	e2 := e.(A)
-	println(e2[3], a[3])
+	println(e2[3], a[3], ret()[3])
 }
